@@ -300,8 +300,11 @@ class StreamItemQueue:
         self._aborted = True
         producer_task = self._producer_task
         if producer_task is not None and not producer_task.done():
-            producer_task.cancel()
-            self._producer_cancelled = True
+            if not self._producer_cancelled:
+                # cancel only once: a second cancellation would interrupt the
+                # cleanup that the producer runs when it is cancelled
+                producer_task.cancel()
+                self._producer_cancelled = True
             await gather(producer_task, return_exceptions=True)
         await self._settle_pending()
         buffered = self._abort_buffered_work(reason)
